@@ -19,7 +19,7 @@ import (
 
 func extraCmd3(name string, args []string) bool {
 	if name != "tv" {
-		return false
+		return extraCmd4(name, args)
 	}
 	fs := flag.NewFlagSet("tv", flag.ExitOnError)
 	src := fs.String("src", ".", "directory of the harness package (its own module)")
